@@ -46,12 +46,36 @@ def gen(rng, ctx):
     if rng.random() < 0.4:
         cd = G.add_blackboxes(rng, cd, rng.randint(1, 2), bbdefs=BBDEFS, p_unconnected=rng.choice([0.0, 0.3, 0.5]))
         kind = "bb"
+    if rng.random() < 0.08:
+        # degenerate interfaces: no primary input (sources are constants / blackbox outputs) or no primary output
+        # (all endpoints are blackbox input pins)
+        which = rng.choice(["no_inputs", "no_outputs"])
+        if which == "no_inputs":
+            cd["nodes"] = [[n, (rng.choice(["0", "1"]) if t == "input" else t), o] for n, t, o in cd["nodes"]]
+        else:
+            if not cd["bbs"]:
+                cd = G.add_blackboxes(rng, cd, 1, bbdefs=BBDEFS, p_unconnected=0.0)
+            outs_ = [n for n, t, o in cd["nodes"] if o]
+            pins_in = [n for n, t, o in cd["nodes"] if t == "bb_input"]
+            edges = {tuple(e) for e in cd["edges"]}
+            k = 0
+            for o_ in outs_:
+                # keep the former output loaded: it drives a pin of an extra instance
+                inst = f"z{k}"
+                k += 1
+                cd["bbs"][inst] = {"name": "one", "inputs": ["p"], "outputs": ["o"]}
+                cd["nodes"] += [[f"{inst}.p", "bb_input", False], [f"{inst}.o", "bb_output", False]]
+                tp = G.cd_types(cd)[o_]
+                if tp != "bb_input":
+                    cd["edges"].append([o_, f"{inst}.p"])
+            cd["nodes"] = [[n, t, False] for n, t, o in cd["nodes"]]
+        kind += "+" + which
     names = [n for n, _, _ in cd["nodes"] if "." not in n]
     m = {}
     r = rng.random()
     if r < 0.25:
         for v in rng.sample(names, min(len(names), rng.randint(1, 3))):
-            m[v] = rng.choice(["\\" + v + "[0]", "\\" + v + "-1", "\\" + v + "$x", "\\1" + v])
+            m[v] = rng.choice(["\\" + v + "[0]", "\\" + v + "-1", "\\" + v + "$x", "\\1" + v, "\\" + v + "//a", "\\" + v + "/*", "\\*/" + v, "\\" + v + ");"])
         kind += "+escaped"
     elif r < 0.45:
         preds = G.cd_preds(cd)
@@ -174,5 +198,5 @@ def check(case, ctx):
 
 
 def gates(counters, table, tier):
-    need = ["behavioral:True", "behavioral:False", "class:bb", "class:escaped", "class:lookalike", "with_constants", "unconnected_pins", "identical_graph_branch", "via_file"]
+    need = ["class:no_inputs", "class:no_outputs", "behavioral:True", "behavioral:False", "class:bb", "class:escaped", "class:lookalike", "with_constants", "unconnected_pins", "identical_graph_branch", "via_file"]
     return [f"{k} seen {counters.get(k, 0)} times" for k in need if counters.get(k, 0) < 5]
